@@ -10,9 +10,9 @@ from harness.c07_util import World
 from translate import c07_index_sites, c07_index_shapes
 
 MANIFEST = dict(
-    technique='Rocq proof (index invariant preserved by every operation, by induction over operation sequences on several maps; search() sound and complete; worldspawn pinned) + ast census of Entity._keys writers and index update sites + vm_compute operation-sequence correspondence + scan oracle on real VMF objects',
-    text='Theorems in Props/C07.v about SM/IndexModel.v (entity list, spawn, per-entity key lists with case-insensitive first-spelling-wins lookup, by_class/by_target as maps from folded key to sets of entities): the invariant "every index entry equals the scan of entities+worldspawn under the current folded classname / targetname (\'\' -> None), the worldspawn has class worldspawn and is listed under it" holds for VMF(), for VMF.parse of any tree, is preserved by every operation (create_ent/add_ent/add_ents/remove_ent, Entity(), copy, []=, del (single and tuple), pop, popitem, setdefault, update, clear, make_unique, export) whatever its arguments and whether or not it raises, hence after every finite history over any number of maps; search() returns exactly the matching entities. The model is of the repaired maintenance code (8 fix commits). It is tied to vmf.py on every run by a fail-closed census (every writer of Entity._keys and every by_class/by_target update site is a modelled function, every index key is folded, every Entity-side add is guarded by membership) and by an operation-sequence correspondence that compares, after every step, error code, entity list, all key lists and both indexes of the model (vm_compute) with real VMF objects; a scan oracle checks the property directly on the implementation after every step, including iteration of the indexes while mutating them.',
-    note='Trusted: Coq kernel + vm_compute, translate/c07_index_sites.py, the hand model SM/IndexModel.v (tied by the correspondence), CPython. str.casefold is a parameter of the model; theorems assume it fixes the empty string and the literals classname/targetname/worldspawn (and is idempotent, for search). Not modelled: nodeid processing (C08), conversion of non-string values (conv_kv), Entity.keys setter (clear+update), termination of the make_unique loop (fuel; invariant holds either way), CopySet iteration (searched: iterate-while-mutating histories never raise and leave the indexes right). Out of domain: add_ent of the worldspawn object or of an entity created for another VMF.',
+    technique='Rocq proof (index invariant preserved by every operation incl. defaultdict reads, by induction over operation sequences on several maps; search() sound and complete both for the hand model and for every program shape that passes the generated obligations; make_unique loop termination by pigeonhole; CopySet iteration total and exception-free under arbitrary mutation; worldspawn pinned) + two fail-closed ast translators (census of writers/escapes/key sources; shapes of Entity.__setitem__, VMF.search, CopySet.__iter__) + vm_compute correspondences (operation sequences, search, search as written, iteration traces) + scan oracle on real VMF objects',
+    text='Theorems in Props/C07.v about SM/IndexModel.v (entity list, spawn, per-entity key lists with case-insensitive first-spelling-wins lookup, by_class/by_target as maps from folded key to sets of entities, possibly holding empty sets left by defaultdict reads): the invariant "every index entry equals the scan of entities+worldspawn under the current folded classname / targetname (\'\' -> None), the worldspawn has class worldspawn and is listed under it" holds for VMF(), for VMF.parse of any tree, is preserved by every operation (create_ent/add_ent/add_ents/remove_ent, Entity(), copy between maps, []=, del (single and tuple), pop, popitem, setdefault, update, clear, make_unique, export, reading by_class[k]/by_target[k]) whatever its arguments and whether or not it raises, hence after every finite history over any number of maps; search() returns exactly the matching entities. Round 2: the decisive code is modelled from its source shape, regenerated on every run: (1) the lookup loop of Entity.__setitem__ (which key spelling fetches the previous value and stores the new one, before/after the store) - every shape passing five named obligations equals the hand model for all inputs, the caller-spelling and read-after-store shapes are refuted; (2) VMF.search as a program over real defaultdict semantics (reads insert empty sets, `in` sees them) - every program passing the obligations returns exactly the specified entities and leaves a state no reader can distinguish, the if/elif shape is refuted; (3) CopySet.__iter__ as a generator program - no RuntimeError for any loop body, exactly |snapshot|+|late| yields, each element once, invariant kept when the body applies arbitrary operations; plain set iteration refuted; (4) the make_unique while-True loop ends within the model\'s fuel (n+1 candidates, n keys; candidates distinct after folding) and returns the first unused name; make_unique never raises. Tied to vmf.py on every run by the fail-closed census (writers of Entity._keys, escapes of the dict, writers of VMF.entities/VMF.spawn, every index update: key folded, value read from the filed entity\'s own classname/targetname, adds guarded by membership), the shape obligations, and correspondences comparing, after every step, error code, entity list, key lists and both indexes of the model with real VMF objects, search results (hand model and program as written) and the yield traces of index iterations with mutating bodies; a scan oracle checks the property directly on the implementation after every step.',
+    note='Trusted: Coq kernel + vm_compute, translate/c07_index_sites.py, translate/c07_index_shapes.py, the hand model SM/IndexModel.v (tied by the correspondences and, for __setitem__/search/CopySet.__iter__, by translator-generated shapes proved equal to it), CPython. No axioms. str.casefold is a parameter of the model; theorems assume it fixes the empty string and the literals classname/targetname/worldspawn, is idempotent (search), and distributes over an appended decimal number (make_unique termination) - all proved for ASCII lower-casing, true of str.casefold. Not modelled: nodeid processing (C08), conversion of non-string values (conv_kv), Entity.keys setter (clear+update), laziness/order/multiplicity of search() results, the empty sets that make_unique and iteration leave in the implementation\'s defaultdicts (shown irrelevant: ix_equiv). Non-ASCII names only in the oracle stream. Out of domain: add_ent of the worldspawn object or of an entity created for another VMF, writing through the dict returned by the deprecated Entity.keys property.',
 )
 
 NAMES = ['a', 'A', 'Ab', 'aB', '', 'a1', 'worldspawn']
@@ -677,12 +677,18 @@ def run(ck: Ck) -> None:
     ck.rule = ('histories over 2-3 real VMF objects with at most 6 entities each; names drawn from '
                "{a, A, Ab, aB, '', a1, worldspawn} (oracle stream also ß/SS/ss/İ), keys from classname/targetname in "
                'three spellings plus two other keys; operations create/new/copy/add/adds/remove/set/del/tuple-del/pop/'
-               'popitem/setdefault/update/clear/make_unique/export/parse/new map/iterate-while-mutating; a history is '
-               'non-trivial when it adds an entity to a map and afterwards mutates keys or removes; distinct by full history')
-    ck.trusted.append('hand-written model SM/IndexModel.v (tied by the operation-sequence correspondence and the census translator on every run)')
+               'popitem/setdefault/update/clear/make_unique/export/parse/new map/defaultdict read of an index (folded or '
+               'un-folded key)/iterate-while-mutating (loop bodies: set/del/remove/pop/clear/make_unique/create a like-named '
+               'entity = late addition); a history is non-trivial when it adds an entity to a map and afterwards mutates keys '
+               'or removes; distinct by full history')
+    ck.trusted.append('hand-written model SM/IndexModel.v (tied by the operation-sequence correspondence and the census translator on every run; '
+                      'Entity.__setitem__ lookup, VMF.search and CopySet.__iter__ additionally by translator-generated shapes proved equal to it)')
+    ck.trusted.append('translate/c07_index_shapes.py (fail-closed symbolic walk of Entity.__setitem__, VMF.search, CopySet.__iter__)')
     ck.assumptions += [
         'str.casefold leaves the empty string and the literals classname/targetname/worldspawn unchanged (hypotheses of every theorem; true of CPython)',
         'operations refer to Entity objects created with the same VMF as parent; vmf.add_ent(vmf.spawn) is outside the domain',
+        'str.casefold is idempotent and distributes over an appended decimal number, fold(b + str(i)) = fold(b) + str(i) (hypotheses of the search / make_unique termination theorems; proved for ASCII lower-casing)',
+        'nobody writes through the dict returned by the deprecated Entity.keys property (the only place, besides Entity.copy -> constructor, where _keys escapes: census obligation all_key_dict_escapes_known)',
         "the 'nodeid' keyvalue processing of __setitem__/__delitem__/add_ent/remove_ent (property C08) does not touch classname/targetname and is not modelled",
     ]
     ok_t = ck.translate('IndexSites_gen', c07_index_sites.translate)
@@ -713,6 +719,7 @@ def run(ck: Ck) -> None:
             }
             for fn in sorted({s[0] for s in side.get('index_sites', [])}):
                 obs[f'index_keys_folded_in:{fn}'] = f'keys_folded_in "{fn}"'
+                obs[f'index_key_values_come_from_the_filed_entity_in:{fn}'] = f'key_sources_ok_in "{fn}"'
             res = ck.instance_obligations(['Coq.Lists.List', 'Coq.Strings.String', 'Coq.Bool.Bool', 'SV.Gen.IndexSites_gen', 'SV.SM.IndexCensus'],
                                           obs, name='census')
             for name, ok in res.items():
